@@ -58,6 +58,38 @@ def check_case(ctx, cs):
                 ctx.violate(site, tg + ["compare_edit_compare"], small, {"before_edit": first, "after_edit": second, "expected_equal": exp, "after_undo": third})
         except Exception as e:
             ctx.violate(site, tg + ["compare_edit_compare", "raises"], small, {"exception": repr(e)[:200]})
+    # a degree changed through the combined setter (``obj.degree = p`` / ``obj.degree = [pu, pv, pw]``) on a deep copy: unequal
+    if a["deg"] != o["B"]["deg"] and a["rat"] == o["B"]["rat"] and len(a["deg"]) == len(o["B"]["deg"]):
+        try:
+            X = build(a, **extra)
+            Y = copy.deepcopy(X)
+            Y.degree = o["B"]["deg"][0] if len(a["deg"]) == 1 else list(o["B"]["deg"])
+            got = list(Y._degree)
+            if got != list(o["B"]["deg"]) or (X == Y) or (Y == X) or not (X != Y):
+                ctx.violate(site, tg + ["degree_setter"], small, {"degree_after_setter": got, "expected": o["B"]["deg"], "X==Y": X == Y})
+        except Exception as e:
+            ctx.violate(site, tg + ["degree_setter", "raises"], small, {"exception": repr(e)[:200]})
+    # two shapes defined from ONE list of points handed to both, one of them then edited in place through the list its getter
+    # returns: the other keeps its definition, the two are unequal
+    if pk == "same":
+        try:
+            from ..adapter import shape_floats, project
+            f = shape_floats(a)
+            shared = [list(q) for q in f["P"]]
+            objs = []
+            for _ in range(2):
+                ob = build(a, **extra)
+                ob.set_ctrlpts(shared, *f["size"])
+                objs.append(ob)
+            X, Y = objs
+            before = copy.deepcopy(project(X))
+            first = (X == Y)
+            (Y.ctrlptsw if a["rat"] else Y.ctrlpts)[0][0] += 1.0
+            Y.set_ctrlpts(list(Y.ctrlptsw if a["rat"] else Y.ctrlpts), *f["size"])      # (re-assign: caches follow the edit)
+            if not first or project(X) != before or (X == Y) or (Y == X):
+                ctx.violate(site, tg + ["shared_point_list"], small, {"equal_before": first, "X_changed": project(X) != before, "X==Y_after_edit": X == Y})
+        except Exception as e:
+            ctx.violate(site, tg + ["shared_point_list", "raises"], small, {"exception": repr(e)[:200]})
     if pk == "same":
         # a deep copy equals its source whatever the (user-chosen) object id, name or sampling is
         for oid in (1, 2, 3, 4):
